@@ -227,7 +227,44 @@ def malform(rng, case):
     return case
 
 
+def gen_options(rng):
+    """input forms the main stream never uses (OPTIONS_AUDIT.md): the sample as a numpy integer array (what
+    cryptorandom's sampler returns and what sample_from_cvrs documents), and incoming manifests with further columns
+    and / or another column order (every documented access is by name)"""
+    vendor = rng.choice(["dominion", "hart"])
+    sizes = rand_sizes(rng)
+    T = sum(sizes)
+    u = rng.random()
+    if u < 0.5:
+        c = manifest_case(rng, vendor, sizes)
+    elif u < 0.9:
+        M = T + rng.choice([0, 0, 1, 2, 4])
+        style = rng.choice(["int", "str", "names"]) if vendor == "dominion" else rng.choice(["int", "str", "one"])
+        c = cvr_case(vendor, sizes, M, rng, style=style, drop=rng.choice([0, 0, 0, 1]))
+    else:
+        M, k = rand_bounds(rng, T)
+        c = {"kind": "prep", "vendor": vendor, "sizes": sizes, "max_cards": M, "n_cvrs": k}
+    r = rng.random()
+    if r < 0.6 or c["kind"] == "prep":
+        c["cols"] = {"extra": rng.choice([[], ["Ballot Type"], ["Ballot Type", "Notes"], ["Count", "Location"]]),
+                     "order": rng.choice([None, rng.randint(1, 10 ** 6), rng.randint(1, 10 ** 6)])}
+        if not c["cols"]["extra"] and c["cols"]["order"] is None:
+            c["cols"]["order"] = rng.randint(1, 10 ** 6)
+    if r >= 0.4 and c["kind"] != "prep" and all(isinstance(x, int) and 0 <= x < 2 ** 31 for x in c["sample"]):
+        c["sample_np"] = rng.choice(["int64", "int64", "int32", "uint32"])
+    return c
+
+
 def gen(rng, n, tier):
+    import hashlib
+    from ..core import Rng
+    opt = Rng(int(hashlib.sha1(("options" + repr(rng.getstate())).encode()).hexdigest()[:15], 16))
+    yield from gen_main(rng, n, tier)
+    for _ in range(max(8, n // 10)):
+        yield gen_options(opt)
+
+
+def gen_main(rng, n, tier):
     count = 0
     # (1) enumerated small size vectors: <= 4 batches, sizes <= 3
     vecs = [list(v) for nb in range(1, 5) for v in itertools.product(range(4), repeat=nb)]
@@ -278,13 +315,24 @@ SIZE_COL = {"dominion": "Total Ballots", "hart": "Number of Ballots"}
 DTYPES = ["uint8", "uint16", "uint32", "uint64", "int8", "int16", "int32"]
 
 
-def frame(vendor, rows, index=None, dtype=None):
+def frame(vendor, rows, index=None, dtype=None, cols=None):
     """`dtype`: the integer type of the size column when it is not pandas' default int64 (a manifest read with an
     explicit dtype=, or downcast with pd.to_numeric(..., downcast='unsigned') to save memory); every generated size
-    fits the type."""
+    fits the type.  `cols` = {"extra": [names], "order": seed}: the incoming frame has further columns besides the
+    documented ones (a real manifest file does: ballot type, location, notes) and / or its columns in another order;
+    "should contain the columns ..." -- every documented access is by column name"""
     df = frame0(vendor, rows, index)
     if dtype is not None:
         df[SIZE_COL[vendor]] = df[SIZE_COL[vendor]].astype(dtype)
+    if cols:
+        import random
+        r = random.Random(cols.get("order", 0))
+        for name in cols.get("extra") or []:
+            df[name] = [r.choice(["Mail", "EV", "ED", 7, 3.5]) if name != "Count" else r.randint(0, 9) for _ in range(len(df))]
+        if cols.get("order") is not None:
+            names = list(df.columns)
+            r.shuffle(names)
+            df = df[names].copy()
     return df
 
 
@@ -348,11 +396,11 @@ def canon_frame(vendor, m):
     return rows
 
 
-def do_prep(vendor, rows, max_cards, n_cvrs, index=None, dtype=None):
+def do_prep(vendor, rows, max_cards, n_cvrs, index=None, dtype=None, cols=None):
     """-> (canonical prep result, prepared frame or None)"""
     V = vendor_cls(vendor)
     try:
-        m, mc, ph = V.prep_manifest(frame(vendor, rows, index, dtype), max_cards, n_cvrs)
+        m, mc, ph = V.prep_manifest(frame(vendor, rows, index, dtype, cols), max_cards, n_cvrs)
     except Exception as e:  # noqa
         return {"st": "err", "err": err_kind(e)}, None
     return {"st": "ok", "rows": canon_frame(vendor, m), "cum": [int(x) for x in m["cum_cards"]],
@@ -381,14 +429,21 @@ def impl(case):
     V = vendor_cls(vendor)
     if case["kind"] == "prep":
         rows = mk_rows(vendor, case["sizes"])
-        p, _ = do_prep(vendor, rows, case["max_cards"], case["n_cvrs"], case.get("index"), case.get("dtype"))
+        p, _ = do_prep(vendor, rows, case["max_cards"], case["n_cvrs"], case.get("index"), case.get("dtype"), case.get("cols"))
         if p["st"] == "ok":
             return {"st": "ok", "sizes": [r["size"] for r in p["rows"]], "manifest_cards": p["manifest_cards"],
                     "phantoms": p["phantoms"], "tabs": [r["tab"] for r in p["rows"]]}
         return p
-    p, m = do_prep(vendor, case["rows"], case["max_cards"], case["n_cvrs"], case.get("index"), case.get("dtype"))
+    p, m = do_prep(vendor, case["rows"], case["max_cards"], case["n_cvrs"], case.get("index"), case.get("dtype"), case.get("cols"))
     if m is None:
         return {"st": "ok", "prep": p}
+
+    def smp_arg():
+        # `sample_np`: the sample as the numpy integer array the sampler returns ("sample: numpy array of ints")
+        if case.get("sample_np"):
+            import numpy as np
+            return np.array(list(case["sample"]), dtype=case["sample_np"])
+        return list(case["sample"])
     if case["kind"] == "manifest":
         look = []
         for s in case["all"]:
@@ -402,7 +457,7 @@ def impl(case):
             except Exception as e:  # noqa
                 look.append({"st": "err", "err": err_kind(e)})
         try:
-            cards, so, ph = V.sample_from_manifest(m, list(case["sample"]))
+            cards, so, ph = V.sample_from_manifest(m, smp_arg())
             smp = {"st": "ok", "cards": [canon_mcard(vendor, c) for c in cards], "order": canon_order(so),
                    "phantoms": [x.id for x in ph], "_phantoms_ok": all(phantom_ok(x) for x in ph)}
         except Exception as e:  # noqa
@@ -411,7 +466,7 @@ def impl(case):
     # kind == "cvrs"
     cvr_list = [CVR(id=c["id"], card_in_batch=c["cib"], phantom=c["phantom"]) for c in case["cvrs"]]
     try:
-        cards, so, cs, ph = V.sample_from_cvrs(cvr_list, m, list(case["sample"]))
+        cards, so, cs, ph = V.sample_from_cvrs(cvr_list, m, smp_arg())
         pos = {id(c): i for i, c in enumerate(cvr_list)}
         smp = {"st": "ok", "cards": [[cell(x) if x is not None else "None" for x in c] for c in cards],
                "order": canon_order(so),
